@@ -1,8 +1,12 @@
 package main
 
 import (
+	"bytes"
+	"errors"
 	"fmt"
 	"math/rand"
+	"net"
+	"reflect"
 	"strings"
 	"sync"
 	"time"
@@ -409,6 +413,82 @@ func genC16(o *hx.Out, tier string) {
 		for _, sd := range sides {
 			o.Add("heartbeat config, several nodes on one dialect object", sd.res, "hb", "0", cd.name, u(uint64(sd.systype)), u(uint64(sd.ap)), u(uint64(cd.d.Version)))
 		}
+	}
+
+	// (1c) stream requests on a TCP server endpoint with two peers: A's heartbeat is answered once;
+	// peer B leaves (its channel closes); A's next heartbeat, well within 30 s, is not answered again
+	{
+		cd := &ds[1]
+		addr := fmt.Sprintf("127.0.0.1:%d", 29700+int(hx.Seed()%100)*3)
+		verdict := "ok"
+		node, err := gomavlib.NewNode(gomavlib.NodeConf{Endpoints: []gomavlib.EndpointConf{gomavlib.EndpointTCPServer{Address: addr}},
+			Dialect: cd.d, OutVersion: gomavlib.V2, OutSystemID: 10, HeartbeatDisable: true, StreamRequestEnable: true})
+		if err != nil {
+			verdict = "NODE-FAILED " + err.Error()
+		} else {
+			col := scn.NewCollector(node, 0, false)
+			a, errA := net.Dial("tcp4", addr)
+			b, errB := net.Dial("tcp4", addr)
+			if errA != nil || errB != nil {
+				verdict = "DIAL-FAILED"
+			} else {
+				hbFrame := func(sys byte) []byte {
+					mrw := cd.drw.GetMessage(0)
+					m := hx.RandMessage(r, cd.d.Messages[0], 0)
+					for _, mm := range cd.d.Messages {
+						if mm.GetID() == 0 {
+							m = hx.RandMessage(r, mm, 0)
+						}
+					}
+					reflect.ValueOf(m).Elem().FieldByName("Autopilot").SetUint(3)
+					f := &frame.V2Frame{SystemID: sys, ComponentID: 1, Message: mrw.Write(m, true)}
+					f.Checksum = f.GenerateChecksum(mrw.CRCExtra())
+					bs, _ := (func() ([]byte, error) {
+						var buf bytes.Buffer
+						w := &frame.Writer{ByteWriter: &buf, DialectRW: cd.drw}
+						if err := w.Initialize(); err != nil {
+							return nil, err
+						}
+						err := w.Write(f)
+						return buf.Bytes(), err
+					})()
+					return bs
+				}
+				countReq := func(c net.Conn, wait time.Duration) int {
+					c.SetReadDeadline(time.Now().Add(wait)) //nolint:errcheck
+					rd := &frame.Reader{ByteReader: c, DialectRW: cd.drw}
+					rd.Initialize() //nolint:errcheck
+					n := 0
+					for {
+						fr, err := rd.Read()
+						if err != nil {
+							var pe frame.ReadError
+							if errors.As(err, &pe) {
+								continue
+							}
+							return n
+						}
+						if fr.GetMessage().GetID() == 66 {
+							n++
+						}
+					}
+				}
+				a.Write(hbFrame(1)) //nolint:errcheck
+				b.Write(hbFrame(2)) //nolint:errcheck
+				first := countReq(a, 700*time.Millisecond)
+				b.Close()
+				time.Sleep(300 * time.Millisecond)
+				a.Write(hbFrame(1)) //nolint:errcheck
+				second := countReq(a, 700*time.Millisecond)
+				if first != 7 || second != 0 {
+					verdict = fmt.Sprintf("REQUESTS-TO-A first=%d (want 7) after-sibling-left=%d (want 0)", first, second)
+				}
+				a.Close()
+			}
+			scn.CloseWithin(node, 10*time.Second)
+			<-col.Done
+		}
+		o.Add("stream requests on a tcp server, a sibling connection leaves", verdict, "expect", "ok", "sr-tcp-sibling")
 	}
 
 	// (2) stream requests: arrival histories
